@@ -23,7 +23,8 @@ HashCmds ==
   \cup {<<c, hk, f>> : c \in {L_hexists, L_hstrlen}, f \in Fields \cup {<<120>>}} \cup {<<L_hexists, sk, ff>>, <<L_hstrlen, sk, ff>>}
   \cup {<<L_hdel, hk, f>> : f \in Fields \cup {<<120>>}} \cup {<<L_hdel, hk, ff, fg>>, <<L_hdel, hk, ff, ff>>, <<L_hdel, sk, ff>>, <<L_hdel, hk>>}
   \cup {<<L_hincrby, hk, ff, n>> : n \in {<<49>>, <<45, 49>>, <<97>>, BigStr(Int64Max), BigStr(Int64Min)}} \cup {<<L_hincrby, sk, ff, <<49>>>>, <<L_hincrby, hk, ff>>}
-  \cup {<<L_hincrbyfloat, hk, fg, n>> : n \in {<<49, 46, 53>>, <<45, 48, 46, 53>>, <<97>>}} \cup {<<L_hincrbyfloat, sk, ff, <<49>>>>}
+  \cup {<<L_hincrbyfloat, hk, fg, n>> : n \in {<<49, 46, 53>>, <<45, 48, 46, 53>>, <<97>>, L_inf, L_minus_inf, L_nan}} \cup {<<L_hincrbyfloat, sk, ff, <<49>>>>}
+  \* (non-finite increments are never a number to store: rejected whether or not the field exists - seed C10-r3)
   \cup {<<L_hrandfield, hk>>, <<L_hrandfield, sk>>, <<L_hrandfield, hk, <<97>>>>}
   \cup {<<L_hrandfield, hk, B(n)>> : n \in {-2, -1, 0, 1, 2, 3}}
   \cup {<<L_hrandfield, hk, B(n), L_withvalues>> : n \in {-2, 1, 2}} \cup {<<L_hrandfield, hk, B(1), <<120>>>>}
